@@ -34,6 +34,7 @@ def excOf (name : String) : ErrKind :=
   else if name == "ValueError" then .valueError
   else if name == "KeyError" then .keyError
   else if name == "EdzedInvalidState" then .invalidState
+  else if name == "TypeError" then .typeError
   else .fuel    -- any other class (TypeError, RuntimeError, …): a kind that no path of the model produces
 
 /-- the primitives of `_ctx_event` = the operations of the model -/
